@@ -201,7 +201,7 @@ REPO_CALLS = [
 ]
 
 
-def _repo_checks(L, fails, subset=None):
+def _repo_checks(L, fails, subset=None, notenc=None):
     R = loader.Real()
     n = 0
     calls = REPO_CALLS if subset is None else REPO_CALLS[::subset]
@@ -220,6 +220,12 @@ def _repo_checks(L, fails, subset=None):
             n += 1
             if not _same(got, want, tol=1e-7):
                 fails.append('%s.%s: shim %r vs real %r' % (mod, fn, _tofloat(got), want))
+        except core.NotEncodable as e:
+            # a construct the shim does not model: paths that reach it are reported as NOT-ENCODABLE by the driver (inconclusive, not an error)
+            if notenc is not None:
+                notenc.append('%s.%s: %s' % (mod, fn, e))
+            else:
+                fails.append('%s.%s aborted in the shim: %r' % (mod, fn, e))
         except core.PathAbort as e:
             fails.append('%s.%s aborted in the shim: %r' % (mod, fn, e))
         except Exception as e:
@@ -238,8 +244,9 @@ def _repo_checks(L, fails, subset=None):
 def run(L, quick=True):
     fails = []
     n = _np_checks(L, fails)
-    n += _repo_checks(L, fails, subset=None)
-    return dict(checks=n, failures=fails)
+    notenc = []
+    n += _repo_checks(L, fails, subset=None, notenc=notenc)
+    return dict(checks=n, failures=fails, not_encodable=notenc)
 
 
 if __name__ == '__main__':
@@ -248,4 +255,6 @@ if __name__ == '__main__':
     print('selftest: %d checks, %d failures' % (r['checks'], len(r['failures'])))
     for f in r['failures']:
         print('  FAIL', f)
+    for f in r['not_encodable']:
+        print('  NOT-ENCODABLE', f)
     sys.exit(2 if r['failures'] else 0)
